@@ -6,8 +6,8 @@
 cd "$(dirname "$0")/.."
 OUT=seeded/benign/MATRIX.md
 TMP=$(mktemp)
-for d in $(ls seeded/benign | grep -E '^C[0-9]+r$' | sort); do
-  id=${d%r}
+for d in $(ls seeded/benign | grep -E '^C[0-9]+r[0-9]*$' | sort); do
+  id=${d%%r*}
   case $id in
     C27) ids="C26 C27";;
     C04|C05|C06) ids="C04 C05 C06 C07";;
